@@ -85,9 +85,9 @@ def summary_consistency(kind):
         weakly = bound.get("weakly", Const(False))
         pid = I.fresh_id("part")
         wdesc = desc(weakly)
-        ev = I.log("summary.consistency", node, func=fi.qualname if fi else kind, bb=bb, weakly=weakly, pid=pid, kind=kind,
+        ev = I.log("summary.consistency", node, func=fi.qualname if fi else kind, bb=bb, weakly=weakly, pid=pid, pkind=kind,
                    bbdesc=bb_desc(I, bb))
-        part = ElemV(("part", pid, kind, wdesc, bb_desc(I, bb)), "partition", kind)
+        part = ElemV(("part", pid), "partition", kind)
         return TupleV((part, Sym(("partstats", pid))))
 
     return h
@@ -101,8 +101,8 @@ def bb_desc(I: Interp, bb):
         if isinstance(o, HObj) and "conditionals" in o.attrs and isinstance(o.attrs["conditionals"], Ref):
             d = I.deref(o.attrs["conditionals"])
             if isinstance(d, HDict):
-                ents = tuple(sorted(((repr(k), cond_desc(v)) for k, v in d.entries.items()), key=repr))
-                each = tuple((e[2], e[3], desc(e[4]), cond_desc(e[5])) for e in d.each)
+                ents = tuple(sorted(((repr(k), cond_desc_state(I.state, v)) for k, v in d.entries.items()), key=repr))
+                each = tuple((e[2], e[3], desc(e[4]), cond_desc_state(I.state, e[5])) for e in d.each)
                 return ("bb", ents, each, d.sym)
     return ("bb?", desc(bb))
 
@@ -295,3 +295,172 @@ def decided(path: PathResult, pred):
         if k == pred:
             return (not v) if neg else v
     return None
+
+
+# ----------------------------------------------------------------------------------------------
+# guards and decision tables
+# ----------------------------------------------------------------------------------------------
+def query_formula(ev):
+    """Conjunction of everything in scope at a satisfiability query, as one formula (only plain items)."""
+    fs = []
+    for it in flat(ev.frames):
+        if it[0] == "f":
+            fs.append(it[1])
+        else:
+            return None
+    if len(fs) == 1:
+        return fs[0]
+    return ("and", tuple(fs))
+
+
+def query_map(paths):
+    """qid -> query event, over all paths (ids are stable across paths by construction)."""
+    m = {}
+    for p in paths:
+        for ev, Q in iter_events(p.events):
+            if ev.kind == "query":
+                m.setdefault((ev.qid, len(Q)), ev)
+                m.setdefault(ev.qid, ev)
+    return m
+
+
+def path_query_map(p):
+    m = {}
+    for ev, Q in iter_events(p.events):
+        if ev.kind == "query":
+            m[ev.qid] = (ev, Q)
+    return m
+
+
+def sat_literals(path, extra_items=None):
+    """The satisfiability decisions of a path as guard literals ('sat', f) / ('not', ('sat', f)); the
+    remaining decisions are returned separately."""
+    qm = path_query_map(path)
+    lits, other = [], []
+    for key, val in path.decisions:
+        if key[0] == "sat" and key[1] in qm:
+            f = query_formula(qm[key[1]][0])
+            if f is None:
+                other.append((key, val))
+                continue
+            lits.append(("sat", f) if val else ("not", ("sat", f)))
+        else:
+            other.append((key, val))
+    return lits, other
+
+
+def pred_to_guard(p, qm):
+    """Translate a predicate over ('sat', qid) atoms into a guard over ('sat', formula) atoms."""
+    k = p[0]
+    if k == "sat":
+        ev = qm.get(p[1])
+        if ev is None:
+            return None
+        ev = ev[0] if isinstance(ev, tuple) else ev
+        f = query_formula(ev)
+        return None if f is None else ("sat", f)
+    if k == "not":
+        g = pred_to_guard(p[1], qm)
+        return None if g is None else ("not", g)
+    if k in ("and", "or"):
+        gs = [pred_to_guard(q, qm) for q in p[1]]
+        return None if any(g is None for g in gs) else (k, tuple(gs))
+    if k == "const":
+        return p
+    return None
+
+
+def eval_pred(p, env):
+    """Evaluate a predicate under an assignment of its atoms (KeyError on an unassigned atom)."""
+    k = p[0]
+    if k == "const":
+        return p[1]
+    if k == "not":
+        return not eval_pred(p[1], env)
+    if k == "and":
+        return all(eval_pred(q, env) for q in p[1])
+    if k == "or":
+        return any(eval_pred(q, env) for q in p[1])
+    if k == "check3":
+        return env[("check", p[1])] == p[2]
+    return env[p]
+
+
+def pred_atoms(p, acc=None):
+    if acc is None:
+        acc = []
+    k = p[0]
+    if k == "const":
+        pass
+    elif k == "not":
+        pred_atoms(p[1], acc)
+    elif k in ("and", "or"):
+        for q in p[1]:
+            pred_atoms(q, acc)
+    elif k == "check3":
+        if ("check", p[1]) not in acc:
+            acc.append(("check", p[1]))
+    elif p not in acc:
+        acc.append(p)
+    return acc
+
+
+def returned_bool(I_or_none, v):
+    """A returned value as a predicate (Const bool / PredV / Sym bool)."""
+    if isinstance(v, Const):
+        return ("const", bool(v.value))
+    if isinstance(v, PredV):
+        return v.p
+    if isinstance(v, Sym):
+        return ("truthy", v.label)
+    return ("truthy", desc(v))
+
+
+def cond_desc_state(state, v):
+    p = cond_parts_state(state, v)
+    if p is not None:
+        return ("cond", F.canon(p[0]), F.canon(p[1]))
+    return desc(v)
+
+
+def delegate(name, raises=("TimeoutError",)):
+    """Summary of an abstract hook (`_inference`, `_preprocess_belief_base`): an opaque result, or one of the
+    listed exceptions (every outcome is explored)."""
+
+    def h(I, fi, args, kwargs, node):
+        cid = I.fresh_id("dlg")
+        I.log("delegate", node, func=name, args=tuple(args), kwargs=dict(kwargs), cid=cid)
+        if raises:
+            out = I.ctx.decide(("delegate-outcome", cid), ("ok",) + tuple(raises))
+            if out != "ok":
+                from .absint import RaiseSig
+                from .absvals import ExcV
+
+                I.log("raise.delegate", node, exc=out, cid=cid)
+                raise RaiseSig(ExcV(out, ("delegate", name, cid)), node)
+        return Sym(("delegated", name, cid), "bool")
+
+    return h
+
+
+def truth_rows(path):
+    """For a path that returns a Boolean: every (assignment, value) pair, the assignment extending the path's
+    decisions over the atoms of the returned predicate that the path left undecided."""
+    from itertools import product
+
+    if path.outcome[0] != "return":
+        return []
+    p = returned_bool(None, path.outcome[1])
+    env = {}
+    for k, v in path.decisions:
+        env[k] = v
+    atoms = [a for a in pred_atoms(p) if a not in env]
+    rows = []
+    for bits in product((True, False), repeat=len(atoms)):
+        e = dict(env)
+        e.update(zip(atoms, bits))
+        try:
+            rows.append((e, eval_pred(p, e)))
+        except KeyError as ex:
+            raise AnalysisError(f"returned predicate mentions an atom that cannot be evaluated: {ex}")
+    return rows
